@@ -164,6 +164,58 @@ def opnames_cases(ctx):
     return out
 
 
+# ---- pre-computed type names (naming/name_index.rs vs Model/NameIndex.lean): one key, and the whole walk -----------------
+NI_PARENTS = ["Job", "JobRun", "JobRunS", "Org", "User", "Tenant", "Project", "A", "Ab", "Settings", "JobRunState", "JobRunState2", "Type", "Status"]
+NI_PROPS = ["state", "run_state", "settings", "s_tate", "id", "type", "status", "x", "tate", "run", "data", "meta_data", "object", "enum"]
+
+
+def best_name_cases(ctx):
+    r = ctx.rng
+    out = []
+    names = ["JobRunState", "JobRunState2", "OrgSettings", "UserSettings", "TenantSettings", "ProjectSettings", "AType", "BType", "AbId", "CdId", "Xstatus", "Ystatus",
+             "FooStruct", "BarStruct", "XEnum", "YEnum", "AObject", "BObject", "ASelf", "BSelf", "Settings", "Settings2", "A", "Éa", "ÉaTag", "ObTag", "Tag", "TagX", "aTag", "bTag", "X1Data", "Y1Data", "Data", "ata", "Data2", "Data3"]
+    fixed = [([["OrgSettings", False], ["UserSettings", False]], ["Settings"]), ([["AType", False], ["BType", False]], []), ([["ASelf", False], ["BSelf", False]], []),
+             ([["X", False]], ["X", "X2", "X3"]), ([["Pet", True], ["Animal", False]], ["Pet"]), ([["B", True], ["A", True]], []), ([], ["UnknownType"]),
+             ([["ÉaTag", False], ["ObTag", False]], []), ([["aTag", False], ["bTag", False]], []), ([["X1Data", False], ["Y1Data", False]], ["Data", "Data2"])]
+    for c, u in fixed:
+        out.append({"op": "cache.best_name", "in": {"cands": c, "used": u}})
+    for _ in range(1500 if ctx.quick else 30000):
+        k = r.choice([1, 1, 2, 2, 3, 4])
+        c = [[r.choice(names), r.random() < 0.12] for _ in range(k)]
+        u = r.sample(names, r.randint(0, 6))
+        out.append({"op": "cache.best_name", "in": {"cands": c, "used": u}})
+    return out
+
+
+def ni_prepare(case):
+    """derived fields of a cache.name_scan case from its primary data `triples` = [[parent, prop, shape index], …]
+    (the last triple of one (parent, prop) wins, as in a JSON object)"""
+    d = case["in"]
+    if case["op"] != "cache.name_scan" or "triples" not in d:
+        return case
+    import re
+    assert all(isinstance(t, list) and len(t) == 3 and re.fullmatch(r"[A-Z][A-Za-z0-9]*", str(t[0])) and re.fullmatch(r"[a-z][a-z_]*[a-z]|[a-z]", str(t[1])) and isinstance(t[2], int) for t in d["triples"])
+    at = {}
+    for parent, prop, si in d["triples"]:
+        at[(parent, prop)] = {"type": "object", "properties": {"m%d" % si: {"type": "integer"}}}
+    comps = {}
+    for (parent, prop), sch in at.items():
+        comps.setdefault(parent, {"type": "object", "properties": {}})["properties"][prop] = sch
+    sites = [{"parent": parent, "prop": prop, "schema": sch} for (parent, prop), sch in at.items()]
+    return {"op": case["op"], "in": {"schemas": comps, "sites": sites, "components": sorted(comps)}}
+
+
+def name_scan_cases(ctx):
+    r = ctx.rng
+    fixed = [[["Job", "run_state", 0], ["JobRun", "state", 1]], [["Org", "settings", 0], ["User", "settings", 0]], [["Tenant", "settings", 0], ["Project", "settings", 0]],
+             [["A", "type", 0], ["Ab", "type", 0]], [["Job", "run_state", 0], ["JobRun", "state", 1], ["JobRunS", "tate", 2]], [["Org", "settings", 0], ["User", "settings", 0], ["Settings", "x", 1]]]
+    out = [{"op": "cache.name_scan", "in": {"triples": f}} for f in fixed]
+    for _ in range(400 if ctx.quick else 8000):
+        n = r.randint(1, 6)
+        out.append({"op": "cache.name_scan", "in": {"triples": [[r.choice(NI_PARENTS), r.choice(NI_PROPS), r.randint(0, 3)] for _ in range(n)]}})
+    return out
+
+
 def run(ctx):
     ok_t = ctx.translate(["naming"])
     proofs_ok, driver_ok = ctx.build_lean(["Oas3Model.Props.C09"])
@@ -171,8 +223,11 @@ def run(ctx):
         ctx.audit("Oas3Model.Props.C09")
         if not ctx.quick:
             ctx.leanchecker("Oas3Model.Props.C09")
-    if driver_ok and ctx.build_harness(["k_naming", "k_gen"]):
+    if driver_ok and ctx.build_harness(["k_naming", "k_gen", "k_cache"]):
         corpus = vlib_corpus(ctx)
+        ctx.prepare = ni_prepare
+        ctx.classify(ctx.evaluate(best_name_cases(ctx) + name_scan_cases(ctx)))
+        ctx.prepare = None
         sc = scope_cases(ctx)
         ctx.classify(ctx.evaluate(sc), shrink=False, tie="E")
         ctx.prepare = prepare
